@@ -1,0 +1,146 @@
+//go:build verif
+
+package cty
+
+// Contracts on operation methods (C02 results on known values, C01 result types on unknown
+// ones, C04 marks, exact panic conditions). Comment-only file.
+//
+//@ global cty.DynamicVal (and (is_dyn_ty (vty $g)) (= (cty.Value.v $g) $G<cty.totallyUnknown>))
+//@ global cty.True (and (is_bool_ty (vty $g)) (= (cty.Value.v $g) (box<bool> true)))
+//@ global cty.False (and (is_bool_ty (vty $g)) (= (cty.Value.v $g) (box<bool> false)))
+//
+//@ func (cty.Value).GetAttr
+//@   tags C02 C04
+//@   requires (wf_deep val)
+//@   let u (unmark val)
+//@   let t (vty val)
+//@   panics[C02] (and (not (is_dyn_ty t)) (or (not (is_obj_ty t)) (not (select (obj_dom t) (nfc name))) (and (is_known val) (is_null val))))
+//@   ensures[C02] dyn: (=> (is_dyn_ty t) (= (unmark result) $G<cty.DynamicVal>))
+//@   ensures[C02] type: (=> (not (is_dyn_ty t)) (= (vty result) (obj_aty t (nfc name))))
+//@   ensures[C02] unknown: (=> (and (not (is_dyn_ty t)) (not (is_known val))) (= (inner_v result) $G<cty.totallyUnknown>))
+//@   ensures[C02] member: (=> (and (not (is_dyn_ty t)) (is_known val)) (= (inner_v result) (strip (select (MapC<String~Any>.val (pl_mapc val)) (nfc name)))))
+//@   ensures[C04] marks_kept: (forall ((k Any)) (! (=> (select (marks_of val) k) (select (marks_of result) k)) :pattern ((select (marks_of result) k))))
+//@   ensures[C06] wf: (wf_deep result)
+//
+// RefineNotNull on an unknown boolean keeps it an unknown boolean (booleans only track nullness);
+// in general it keeps type and marks and returns a known value unchanged. (Assumed here; the
+// refinement builder is C05's subject.)
+//@ func (cty.Value).RefineNotNull
+//@   trusted
+//@   ensures (and (= (vty result) (vty v)) (= (marks_of result) (marks_of v)) (wf_deep result))
+//@   ensures (=> (is_known v) (= result v))
+//@   ensures (=> (and (is_bool_ty (vty v)) (not (is_known v))) (not (is_known result)))
+//
+//@ func (cty.Value).HasIndex
+//@   tags C02 C04
+//@   requires (and (wf_deep val) (wf_deep key))
+//@   let t (vty val)
+//@   let kt (vty key)
+//@   let bothk (and (is_known val) (is_known key))
+//@   panics[C02] (and (not (is_dyn_ty t)) (or (not (or (is_list_ty t) (is_map_ty t) (is_tuple_ty t))) (and (is_list_ty t) (is_number_ty kt) bothk (or (is_null key) (and (is_index_num key) (is_null val)))) (and (is_map_ty t) (is_string_ty kt) bothk (or (is_null key) (is_null val))) (and (is_tuple_ty t) (is_number_ty kt) (is_known key) (is_null key))))
+//@   ensures[C02] type: (is_bool_ty (vty result))
+//@   ensures[C02] list: (=> (and (is_list_ty t) (is_number_ty kt) (kn val) (kn key)) (bool_payload result (seq_has val key)))
+//@   ensures[C02] map: (=> (and (is_map_ty t) (is_string_ty kt) (kn val) (kn key)) (bool_payload result (map_has val key)))
+//@   ensures[C02] tuple: (=> (and (is_tuple_ty t) (is_number_ty kt) (kn key)) (bool_payload result (tup_has val key)))
+//@   ensures[C02] wrongkey: (=> (and (not (is_dyn_ty t)) (not (is_dyn_ty kt)) (or (and (or (is_list_ty t) (is_tuple_ty t)) (not (is_number_ty kt))) (and (is_map_ty t) (not (is_string_ty kt))))) (bool_payload result false))
+//@   ensures[C04] marks_kept: (forall ((k Any)) (! (=> (or (select (marks_of val) k) (select (marks_of key) k)) (select (marks_of result) k)) :pattern ((select (marks_of result) k))))
+//@   ensures[C06] wf: (wf_deep result)
+//
+//@ func (cty.Value).Index
+//@   tags C02 C04
+//@   requires (and (wf_deep val) (wf_deep key))
+//@   let t (vty val)
+//@   let kt (vty key)
+//@   let bothk (and (is_known val) (is_known key))
+//@   let ix (bf.int64 (bf_of key))
+//@   panics[C02] (and (not (is_dyn_ty t)) (or (not (or (is_list_ty t) (is_map_ty t) (is_tuple_ty t))) (and (is_list_ty t) (not (is_dyn_ty kt)) (or (not (is_number_ty kt)) (and bothk (or (is_null key) (not (is_index_num key)) (is_null val) (>= ix (Slice.len (pl_seq val))))))) (and (is_map_ty t) (not (is_dyn_ty kt)) (or (not (is_string_ty kt)) (and bothk (or (is_null key) (is_null val))))) (and (is_tuple_ty t) (not (is_dyn_ty kt)) (or (not (is_number_ty kt)) (and (is_known key) (or (is_null key) (not (is_index_num key)) (>= ix (tuple_len t)) (and (is_known val) (is_null val))))))))
+//@   ensures[C02] dyn: (=> (is_dyn_ty t) (= (unmark result) $G<cty.DynamicVal>))
+//@   ensures[C02] elty: (=> (or (is_list_ty t) (is_map_ty t)) (= (vty result) (elem_ty t)))
+//@   ensures[C02] list: (=> (and (is_list_ty t) (is_number_ty kt) (kn val) (kn key)) (= (inner_v result) (strip (pl_seq_at val ix))))
+//@   ensures[C02] map: (=> (and (is_map_ty t) (is_string_ty kt) (kn val) (kn key) (map_has val key)) (= (inner_v result) (strip (select (MapC<String~Any>.val (pl_mapc val)) (str_of key)))))
+//@   ensures[C02] tuple: (=> (and (is_tuple_ty t) (is_number_ty kt) (kn key)) (and (= (vty result) (tuple_at t ix)) (=> (kn val) (= (inner_v result) (strip (pl_seq_at val ix))))))
+//@   ensures[C02] succeeds_only_if_has_list: (=> (and (is_list_ty t) (is_number_ty kt) (kn val) (kn key)) (seq_has val key))
+//@   ensures[C02] succeeds_only_if_has_tuple: (=> (and (is_tuple_ty t) (is_number_ty kt) (kn key)) (tup_has val key))
+//@   ensures[C02] succeeds_only_if_has_map: (=> (and (is_map_ty t) (is_string_ty kt) (kn val) (kn key)) (map_has val key))
+//@   ensures[C02] unknownkey: (=> (and (or (is_list_ty t) (is_map_ty t)) (or (is_dyn_ty kt) (not bothk))) (not (is_known result)))
+//@   ensures[C04] marks_kept: (forall ((k Any)) (! (=> (or (select (marks_of val) k) (select (marks_of key) k)) (select (marks_of result) k)) :pattern ((select (marks_of result) k))))
+//@   ensures[C06] wf: (wf_deep result)
+//
+// ---- type checking helpers of the operation methods -------------------------------------------
+//
+//@ func cty.typeCheck
+//@   tags C02 C01
+//@   requires (and (vals_typed values (Slice.len values)) (wf_ty required) (wf_ty ret))
+//@   let n (Slice.len values)
+//@   let mismatch (exists ((j Int)) (! (and (trig j) (<= 0 j) (< j n) (not (is_dyn_ty (vty (vals_rel values j)))) (not (ty_eq (vty (vals_rel values j)) required))) :pattern ((trig j))))
+//@   let anydyn (exists ((j Int)) (! (and (trig j) (<= 0 j) (< j n) (is_dyn_ty (vty (vals_rel values j)))) :pattern ((trig j))))
+//@   let anyunk (exists ((j Int)) (! (and (trig j) (<= 0 j) (< j n) ((_ is box<*cty.unknownType>) (cty.Value.v (vals_rel values j)))) :pattern ((trig j))))
+//@   ensures[C02] err: (= (not (= err nil.Any)) mismatch)
+//@   ensures[C02] errnil: (=> (not (= err nil.Any)) (= shortCircuit 0))
+//@   ensures[C01] dyn: (=> (and (= err nil.Any) anydyn) (and (not (= shortCircuit 0)) (= ($at<cty.Value> shortCircuit) $G<cty.DynamicVal>)))
+//@   ensures[C01] unk: (=> (and (= err nil.Any) (not anydyn) anyunk) (and (not (= shortCircuit 0)) (= ($at<cty.Value> shortCircuit) (mk.cty.Value ret $G<cty.totallyUnknown>))))
+//@   ensures[C02] none: (=> (and (= err nil.Any) (not anydyn) (not anyunk)) (= shortCircuit 0))
+//@   loop 1 invariant (= hasDynamic (exists ((j Int)) (! (and (trig j) (<= 0 j) (< j $i) (is_dyn_ty (vty (vals_rel values j)))) :pattern ((trig j)))))
+//@   loop 1 invariant (= hasUnknown (exists ((j Int)) (! (and (trig j) (<= 0 j) (< j $i) (not (is_dyn_ty (vty (vals_rel values j)))) ((_ is box<*cty.unknownType>) (cty.Value.v (vals_rel values j)))) :pattern ((trig j)))))
+//@   loop 1 invariant (forall ((j Int)) (! (=> (and (trig j) (<= 0 j) (< j $i) (not (is_dyn_ty (vty (vals_rel values j))))) (ty_eq (vty (vals_rel values j)) required)) :pattern ((trig j))))
+//
+//@ func cty.mustTypeCheck
+//@   tags C02 C01
+//@   requires (and (vals_typed values (Slice.len values)) (wf_ty required) (wf_ty ret))
+//@   let n (Slice.len values)
+//@   let mismatch (exists ((j Int)) (! (and (trig j) (<= 0 j) (< j n) (not (is_dyn_ty (vty (vals_rel values j)))) (not (ty_eq (vty (vals_rel values j)) required))) :pattern ((trig j))))
+//@   let anydyn (exists ((j Int)) (! (and (trig j) (<= 0 j) (< j n) (is_dyn_ty (vty (vals_rel values j)))) :pattern ((trig j))))
+//@   let anyunk (exists ((j Int)) (! (and (trig j) (<= 0 j) (< j n) ((_ is box<*cty.unknownType>) (cty.Value.v (vals_rel values j)))) :pattern ((trig j))))
+//@   panics[C02] mismatch
+//@   ensures[C01] dyn: (=> anydyn (and (not (= result 0)) (= ($at<cty.Value> result) $G<cty.DynamicVal>)))
+//@   ensures[C01] unk: (=> (and (not anydyn) anyunk) (and (not (= result 0)) (= ($at<cty.Value> result) (mk.cty.Value ret $G<cty.totallyUnknown>))))
+//@   ensures[C02] none: (=> (and (not anydyn) (not anyunk)) (= result 0))
+//
+//@ func cty.forceShortCircuitType
+//@   tags C01
+//@   requires (wf_ty ty)
+//@   requires (or (= shortCircuit 0) (= ($at<cty.Value> shortCircuit) $G<cty.DynamicVal>) (wf_ty (vty ($at<cty.Value> shortCircuit))))
+//@   let sc ($at<cty.Value> shortCircuit)
+//@   panics[C01] (and (not (= shortCircuit 0)) (not (is_dyn_ty (vty sc))) (not (ty_eq (vty sc) ty)))
+//@   ensures[C01] nil: (=> (= shortCircuit 0) (= result 0))
+//@   ensures[C01] dyn: (=> (and (not (= shortCircuit 0)) (is_dyn_ty (vty sc))) (and (not (= result 0)) (= ($at<cty.Value> result) (mk.cty.Value ty $G<cty.totallyUnknown>))))
+//@   ensures[C01] same: (=> (and (not (= shortCircuit 0)) (not (is_dyn_ty (vty sc)))) (= result shortCircuit))
+//
+//@ func (cty.Value).Not
+//@   tags C02 C01 C04
+//@   requires (wf_deep val)
+//@   let t (vty val)
+//@   panics[C02] (and (not (is_dyn_ty t)) (or (not (is_bool_ty t)) (and (is_known val) (is_null val))))
+//@   ensures[C02] type: (is_bool_ty (vty result))
+//@   ensures[C02] known: (=> (and (is_bool_ty t) (kn val)) (bool_payload result (not (bool_of val))))
+//@   ensures[C01] unknown: (=> (or (is_dyn_ty t) (not (is_known val))) (not (is_known result)))
+//@   ensures[C04] marks_kept: (forall ((k Any)) (! (=> (select (marks_of val) k) (select (marks_of result) k)) :pattern ((select (marks_of result) k))))
+//@   ensures[C06] wf: (wf_deep result)
+//
+//@ func (cty.Value).And
+//@   tags C02 C01 C04
+//@   requires (and (wf_deep val) (wf_deep other))
+//@   let t (vty val)
+//@   let ot (vty other)
+//@   let sc (or (is_dyn_ty t) (is_dyn_ty ot) (not (is_known val)) (not (is_known other)))
+//@   panics[C02] (or (and (not (is_dyn_ty t)) (not (is_bool_ty t))) (and (not (is_dyn_ty ot)) (not (is_bool_ty ot))) (and (not sc) (or (is_null val) (and (bool_of val) (is_null other)))))
+//@   ensures[C02] type: (is_bool_ty (vty result))
+//@   ensures[C02] known: (=> (and (kn val) (kn other)) (bool_payload result (and (bool_of val) (bool_of other))))
+//@   ensures[C01] absorbing: (=> (and sc (or (and (is_bool_ty t) (kn val) (not (bool_of val))) (and (is_bool_ty ot) (kn other) (not (bool_of other))))) (bool_payload result false))
+//@   ensures[C01] unknown: (=> (and sc (not (and (is_bool_ty t) (kn val) (not (bool_of val)))) (not (and (is_bool_ty ot) (kn other) (not (bool_of other))))) (not (is_known result)))
+//@   ensures[C04] marks_kept: (forall ((k Any)) (! (=> (or (select (marks_of val) k) (select (marks_of other) k)) (select (marks_of result) k)) :pattern ((select (marks_of result) k))))
+//@   ensures[C06] wf: (wf_deep result)
+//
+//@ func (cty.Value).Or
+//@   tags C02 C01 C04
+//@   requires (and (wf_deep val) (wf_deep other))
+//@   let t (vty val)
+//@   let ot (vty other)
+//@   let sc (or (is_dyn_ty t) (is_dyn_ty ot) (not (is_known val)) (not (is_known other)))
+//@   panics[C02] (or (and (not (is_dyn_ty t)) (not (is_bool_ty t))) (and (not (is_dyn_ty ot)) (not (is_bool_ty ot))) (and (not sc) (or (is_null val) (and (not (bool_of val)) (is_null other)))))
+//@   ensures[C02] type: (is_bool_ty (vty result))
+//@   ensures[C02] known: (=> (and (kn val) (kn other)) (bool_payload result (or (bool_of val) (bool_of other))))
+//@   ensures[C01] absorbing: (=> (and sc (or (and (is_bool_ty t) (kn val) (bool_of val)) (and (is_bool_ty ot) (kn other) (bool_of other)))) (bool_payload result true))
+//@   ensures[C01] unknown: (=> (and sc (not (and (is_bool_ty t) (kn val) (bool_of val))) (not (and (is_bool_ty ot) (kn other) (bool_of other)))) (not (is_known result)))
+//@   ensures[C04] marks_kept: (forall ((k Any)) (! (=> (or (select (marks_of val) k) (select (marks_of other) k)) (select (marks_of result) k)) :pattern ((select (marks_of result) k))))
+//@   ensures[C06] wf: (wf_deep result)
